@@ -522,7 +522,7 @@ impl Check for C20 {
             ctx.stats.sig(&[run.shape]);
         }
         let kind = spec.kind_name();
-        if ctx.stats.wants_sample(&kind, idx) && spec.weight() < 40 && ctx.stats.samples.len() < 8 {
+        if ctx.stats.wants_sample(&kind, idx) && spec.weight() < 40 {
             let lg = run.log.clone();
             ctx.stats.sample(&kind, idx, || J::obj().set("spec", spec.to_json()).set("tape", tape.rec.clone()).set("builds", J::Arr(lg.into_iter().map(J::from).collect())));
         }
